@@ -34,7 +34,7 @@ def gen_cases(ctx, n, cuts, muts):
     return L.parse_cases(out)
 
 
-def run_dec_child(cases, vlimit_kb=24_000_000, per_case_timeout=40):
+def run_dec_child(cases, vlimit_kb=24_000_000, per_case_timeout=40, max_restarts=40):
     """Run the real decoder on `dec` cases in a child under an address-space limit.
     A child that dies is restarted after the case it was working on; that case is
     classified from the child's stderr (out of memory -> oom, else crash)."""
@@ -76,7 +76,7 @@ def run_dec_child(cases, vlimit_kb=24_000_000, per_case_timeout=40):
             results[dead["id"]] = "crash:" + err.strip().splitlines()[0][:120] if err.strip() else "crash"
         i += got + 1
         restarts += 1
-        if restarts > 40:
+        if restarts > max_restarts:
             # the decoder dies over and over: what was observed so far is already a violation;
             # the remaining cases are not run (they are absent from the results)
             break
